@@ -716,6 +716,19 @@ pub fn gen_scenarios(seed: u64, tier: &str) -> Vec<Scenario> {
             out.push(Scenario { id, init, progs: vec![p0, p1], policy, class: "directed:seen-then-foreign-commit-same-length".into(), pidns: false, alias: id % 20 == 16 });
             continue;
         }
+        if id % 10 == 7 {
+            // directed: a Delete that expects NOTHING at an absent path has taken the lock, found nothing and stands right before
+            // its (harmless) unlink - then another server CREATES the path (Put expecting nothing) - then the Delete goes on.
+            // Whatever the create does without the lock, its acknowledged bytes must not be removed by that unlink
+            let b1 = content(&mut r, &pool[1..6]);
+            let init: Vec<(String, Vec<u8>)> = init.into_iter().filter(|(p, _)| *p != shared).collect();
+            let p0 = vec![Req::Del { path: shared.to_string(), exp: None }];
+            let p1 = vec![Req::Put { path: shared.to_string(), exp: None, decl: b1.clone(), len: b1.len() as u64, pieces: vec![b1.clone()] }];
+            let mut policy = vec![Pol::Until(0, "unlink".to_string())];
+            policy.extend((0..60).map(|_| Pol::Step(1)));
+            out.push(Scenario { id, init, progs: vec![p0, p1], policy, class: "directed:delete-nothing-vs-create".into(), pidns: false, alias: false });
+            continue;
+        }
         if id % 10 == 9 {
             // directed: lock hand-off with a third writer.  p0 holds the tree lock (request on another path) while p1 queues
             // on it; p0 releases; p1 passes its compare and stops before its rename; p2 arrives and must wait for p1.
